@@ -16,16 +16,25 @@ def run(tier, seed):
     pack.assume('narrow claim: events are neither lost nor repeated across a resume boundary and the time axis has no '
                 'duplicate stamp, via (i) TDS.run leaves the event/step-size invariant on success, (ii) init_resume writes '
                 'only the step-size state and the time, (iii) the resumed run() requires exactly that invariant',
-                'not decided: trajectory equality with the uninterrupted run; dill itself (snapshot save/load is replayed natively '
-                'when the fix_view_arrays contract fails or is undecided); System.reset reproducibility is a bounded native check')
+                'not decided: trajectory equality with the uninterrupted run; dill itself (dill.load(dill.dump(x)) == x is assumed; save_ss / load_ss '
+                'are under contract for what they hand to / take from dill, and the pair is replayed natively when a snapshot contract fails or is '
+                'undecided); System.reset reproducibility is a bounded native check')
     items = [(T.init_resume('C14'),), (T.calc_h('C14', resume_value=True),), (T.run('C14', drop=('success=>initialisation-test-not-failed',)),)]
     from contracts import fn_resume as RS
     from contracts import fn_sequence as Q
     items += [(Q.system_reset('C14'),), (Q.p_restore('C14'),), (Q.delegation('C14', 'e_clear', 'e_clear'),)]
-    items += [(RS.dae_reset('C14'),), (RS.dae_init_t('C14'),), (RS.fix_view_arrays('C14'), None, RS.replay_snapshot)]
+    items += [(RS.dae_reset('C14'),), (RS.dae_init_t('C14'),), (RS.fix_view_arrays('C14'), None, RS.replay_snapshot),
+              (RS.save_ss_c('C14'), None, RS.replay_snapshot), (RS.load_ss_c('C14'), None, RS.replay_snapshot)]
     run_contracts(pack, items)
     RS.bounded_reset(pack, 'C14')
     from contracts.packutil import native_guard
+    sname = 'C14/andes/utils/snapshot.py:save_ss;load_ss/bounded:snapshot-away-from-events-holds-the-saved-values-and-continues-like-the-saved-system'
+    r = native_guard(pack, sname, RS.replay_snapshot)
+    if r is not None:
+        pack.bounded.append({'function': 'save_ss / load_ss / TDS.run (end to end)', 'kind': 'bounded native: kundur_full, snapshots at t = 2.3 and 0.5, continued 0.7 s',
+                             'cases': r.get('tried', 0), 'counted_as_proved': False})
+        if r.get('confirmed'):
+            pack.violation(sname, {'bounded': True, 'inputs': r.get('inputs'), 'observed': r.get('observed'), 'native_cmd': r.get('native_cmd')})
     from contracts import bounded_resume as BR
     name = 'C14/andes/routines/tds.py:TDS.run(resumed)/bounded:interrupted-and-resumed-run-equals-the-uninterrupted-run'
     r = native_guard(pack, name, BR.run)
